@@ -16,7 +16,7 @@ CLAIM = {
              "(R2) result files are written only by grow(), under a name that is a function of its batch_number alone; sowing writes only batches/, the settings and the function file; nothing but delete_all and check_bad removes crop files; "
              "(R3) every progress query recomputes from disk before answering (each return is dominated by calc_progress), all queries and grow use the writer's directory+template, directory listings count final names but no leftover temporary, "
              "missing_results ranges over [1, num_batches], is_ready_to_reap is 'results > 0 and results == sown batches', grow_missing grows exactly missing_results() with crop=self; (R7) the persisted batch numbers (batchsize, num_batches, remainder) are chosen before anything is written and restored unconditionally from the like-named keys, so progress queries of a re-created Crop range over the batches actually sown. "
-             "Not decided: that glob counts equal settings counts on arbitrary foreign files in the crop directory."),
+             "(R9) missing_results consults the result files on every path to a return: an answer remembered from an earlier call and guarded by in-memory state only (counts, attributes) is reported -- the set of finished batches can change while every count stays the same; a guard that consults the file system is exit 2. Not decided: that glob counts equal settings counts on arbitrary foreign files in the crop directory."),
     "note": "Trusted base: file-system listing / existence semantics; PEP 479 (StopIteration inside a generator becomes RuntimeError); CPython semantics of the parsed ast.",
     "technique": "static analysis: CFG reachability / dominance rules with exception edges, who-may-write and who-may-remove call-graph rules, constant folding of path templates and listing filters",
 }
@@ -359,6 +359,7 @@ def run(ctx):
     from . import c07
     r7 = c07.order_rule(ctx, "C08.R7")
     glob_escape_rule(ctx, "C08.R8")
+    batching.missing_fresh_rule(ctx, "C08.R9")
     prog = ctx.prog
     crop = prog.need_cls(CROP + ".Crop")
     sl = [crop.methods[n] for n in ("calc_progress", "is_ready_to_reap", "missing_results", "num_sown_batches", "num_results", "grow", "grow_missing", "check_bad", "delete_all", "is_prepared", "_sync_info_from_disk", "load_info", "__str__") if n in crop.methods]
